@@ -238,9 +238,59 @@ class FakeSocket:
         self.closed = False
         self.bound = None
         self.timeout = None
+        self._pair = None           # (readable end, writer end, armed?) - OS objects, never pickled
 
     def settimeout(self, t):
         self.timeout = t
+
+    def gettimeout(self):
+        return self.timeout
+
+    # A library that waits with select/poll/selectors instead of catching the time-out needs a descriptor: a socket pair
+    # whose readable end is readable exactly when the next scripted answer is a datagram.
+    def fileno(self):
+        import socket
+        if self.closed:
+            return -1                                   # what a closed socket reports (select then raises ValueError)
+        if self._pair is None:
+            r, w = socket.socketpair()
+            r.setblocking(False)
+            self._pair = [r, w, False]
+        r, w, armed = self._pair
+        if self.script and self.script[0] is None:
+            # asking for the descriptor is the start of a wait; a scripted "nothing arrives" answers that wait (the library
+            # will not call recvfrom for it), so it is consumed here
+            self.script.pop(0)
+            self.polls += 1
+            want = False
+        else:
+            want = bool(self.script)
+        if want and not armed:
+            w.send(b"x")
+        elif armed and not want:
+            try:
+                r.recv(16)
+            except BlockingIOError:
+                pass
+        self._pair[2] = want
+        return r.fileno()
+
+    def _drop_pair(self):
+        if self._pair is not None:
+            for x in self._pair[:2]:
+                try:
+                    x.close()
+                except OSError:
+                    pass
+            self._pair = None
+
+    def __getstate__(self):
+        d = dict(self.__dict__)
+        d["_pair"] = None
+        return d
+
+    def __del__(self):
+        self._drop_pair()
 
     def bind(self, addr):
         self.bound = tuple(addr)
@@ -269,6 +319,7 @@ class FakeSocket:
 
     def close(self):
         self.closed = True
+        self._drop_pair()
 
 
 class FakeSocketModule:
